@@ -81,7 +81,16 @@ func main() {
 				ops = append(ops, l)
 			}
 		}
-		cfg := sessionCfg{Rabbit: *rabbit, Engine: *engine, Auth: *authMode}
+		disk := false
+		for _, o := range ops {
+			if o == "RESTART" {
+				disk = true
+			}
+		}
+		cfg := sessionCfg{Rabbit: *rabbit, Engine: *engine, Auth: *authMode, Disk: disk}
+		if disk && *engine != "badger" {
+			cfg.Dir = filepath.Join(*work, fmt.Sprintf("replay-disk-%d", os.Getpid()))
+		}
 		if *engine == "badger" {
 			cfg.Dir = filepath.Join(*work, fmt.Sprintf("replay-%d", os.Getpid()))
 		}
